@@ -201,10 +201,12 @@ impl<'a> IRCodeGen<'a> {
                 let (aops, a) = self.expression(&a, ctx);
                 let (bops, b) = self.expression(&b, ctx);
                 let c = self.var();
+                let no = self.var();
                 (
                     [
                         aops,
-                        vec![IR::Bool(c, false), IR::If(a)],
+                        // `c` is assigned in the branch, so it has to be a real variable.
+                        vec![IR::Define(c), IR::Bool(no, false), IR::Assign(c, no), IR::If(a)],
                         bops,
                         vec![IR::Assign(c, b), IR::End],
                     ]
@@ -217,10 +219,18 @@ impl<'a> IRCodeGen<'a> {
                 let (bops, b) = self.expression(&b, ctx);
                 let neg_a = self.var();
                 let c = self.var();
+                let yes = self.var();
                 (
                     [
                         aops,
-                        vec![IR::Bool(c, true), IR::Not(neg_a, a), IR::If(neg_a)],
+                        // `c` is assigned in the branch, so it has to be a real variable.
+                        vec![
+                            IR::Define(c),
+                            IR::Bool(yes, true),
+                            IR::Assign(c, yes),
+                            IR::Not(neg_a, a),
+                            IR::If(neg_a),
+                        ],
                         bops,
                         vec![IR::Assign(c, b), IR::End],
                     ]
